@@ -55,6 +55,26 @@ def corr_cases(ctx):
             yield "seed", {"text": text, "mode": "myst", "exts": list(L.STATIC_EXTS), "backend": backend}
         yield "seed", {"text": text, "mode": "gfm", "exts": [], "backend": "docutils"}
         yield "seed", {"text": text, "mode": "commonmark", "exts": [], "backend": "sphinx"}
+    # dynamic syntax (directives, roles, substitutions, front matter): the O_dyn oracle is answered with what the real
+    # run_directive / role / substitution / front-matter run returned (gen.c02_lib.record_dynamic)
+    dyn_exts = list(L.STATIC_EXTS) + list(G.DYN_EXTS)
+    for text in G.SEED_DYNAMIC:
+        for backend in ("docutils", "sphinx"):
+            yield "dyn-seed", {"text": text, "mode": "myst", "exts": dyn_exts, "backend": backend}
+    for blocks in (G.DIRECTIVE_BLOCKS, G.COLON_BLOCKS, G.FRONT_MATTERS):
+        for b in blocks:
+            for backend in ("docutils", "sphinx"):
+                yield "dyn-seed", {"text": "para\n\n" + b + "\n\nafter\n" if blocks is not G.FRONT_MATTERS else b + "\n\nafter\n",
+                                   "mode": "myst", "exts": dyn_exts, "backend": backend}
+    for i, r in enumerate(G.ROLES + G.SUBSTS):
+        yield "dyn-seed", {"text": "a " + r + " b\n", "mode": "myst", "exts": dyn_exts,
+                           "backend": ("docutils", "sphinx")[i % 2]}
+        yield "dyn-seed", {"text": "---\nmyst:\n  substitutions:\n    key: v\n---\n\n- *" + r + "*\n", "mode": "myst", "exts": dyn_exts,
+                           "backend": ("sphinx", "docutils")[i % 2]}
+    for i in range(ctx.budget(500, 4000, 4000)):
+        exts = [e for e in L.STATIC_EXTS if rng.random() < 0.6] + [e for e in G.DYN_EXTS if rng.random() < 0.8]
+        backend = "sphinx" if rng.random() < 0.4 else "docutils"
+        yield "dyn", {"text": G.gen_dynamic_doc(rng, "myst", exts), "mode": "myst", "exts": exts, "backend": backend, "kw": {}}
     n = ctx.budget(1800, 14000, 14000)
     depth = 6 if ctx.tier == "quick" and not ctx.deep else 10
     for i in range(n):
